@@ -1,6 +1,8 @@
 package main
 
 import (
+	"fmt"
+	"os"
 	"go/constant"
 	"go/types"
 	"sort"
@@ -35,6 +37,15 @@ type Row struct {
 	Bodies []*ssa.BasicBlock // blocks of the case body in the dispatcher (outer row)
 	Inner  bool              // selected by the nested dispatcher
 	Site   ssa.Instruction   // where the function value is produced
+	// table-driven dispatch: the row is element TabK of the package-level
+	// table TabG; TabEnv binds the dispatcher's reads of "the current
+	// element" to this element's constants; Sel is the selector function a
+	// nested row was returned by
+	TabG   *ssa.Global
+	TabK   int
+	TabEnv map[ssa.Value]*Org
+	TabElem *SV
+	Sel    *ssa.Function
 }
 
 func (r Row) Name() string {
@@ -124,6 +135,7 @@ func predsAt(r *Resolver, in ssa.Instruction) (pos, neg []Pred, other int) {
 // package functions.
 func FindDispatch(p *Prog) *Dispatch {
 	var best *Dispatch
+	bestN := 0
 	for _, fn := range p.AllRepoFuncs() {
 		if FuncPkgPath(fn) != ModPath+"/"+pkgSshd {
 			continue
@@ -143,12 +155,28 @@ func FindDispatch(p *Prog) *Dispatch {
 					nf++
 				}
 			}
+			// table-driven: an edge is read from (or returned by a function
+			// value read from) an element of a package-level table
+			if nf < 5 {
+				for _, e := range phi.Edges {
+					var tv ssa.Value = e
+					if cl, ok := e.(*ssa.Call); ok && staticCallee(cl.Common()) == nil && !cl.Common().IsInvoke() {
+						tv = cl.Common().Value
+					}
+					if g, _, _, ok := tablePath(tv); ok {
+						if el := p.tableOf(g); len(el) > nf {
+							nf = len(el)
+						}
+					}
+				}
+			}
 			if nf < 5 {
 				continue
 			}
 			d := &Dispatch{Fn: fn, Phi: phi, CallSite: c}
-			if best == nil || nf > len(best.Phi.Edges) {
+			if best == nil || nf > bestN {
 				best = d
+				bestN = nf
 			}
 		}
 	}
@@ -158,49 +186,28 @@ func FindDispatch(p *Prog) *Dispatch {
 	d := best
 	r := NewResolver(p)
 	blk := d.Phi.Block()
+	seenEdge := map[ssa.Value]bool{}
 	for i, e := range d.Phi.Edges {
 		pred := blk.Preds[i]
 		first := pred.Instrs[0]
-		pos, neg, _ := predsAt(r, first)
-		bodies := caseBodyBlocks(d.Fn, pred, blk)
-		switch v := e.(type) {
-		case *ssa.Function:
-			// a method expression yields a thunk: the row's entry function is the method
-			d.Rows = append(d.Rows, Row{Pos: pos, Neg: neg, Fn: unwrapBound(v), Bodies: bodies, Site: first})
-		case *ssa.Const:
-			d.Default = true
-		case *ssa.Call:
-			sc := staticCallee(v.Common())
-			if sc == nil || !InRepo(sc) {
-				d.Problems = append(d.Problems, "entry function selected by an unresolved call at "+p.InstrPos(v))
+		if _, isC := e.(*ssa.Const); !isC {
+			if seenEdge[e] {
 				continue
 			}
-			nr := NewResolver(p)
-			for j, prm := range sc.Params {
-				if j < len(v.Call.Args) {
-					nr.Env[prm] = r.Of(v.Call.Args[j])
-				}
-			}
-			allInstrs(sc, func(in ssa.Instruction) {
-				ret, ok := in.(*ssa.Return)
-				if !ok || len(ret.Results) != 1 {
-					return
-				}
-				switch rv := ret.Results[0].(type) {
-				case *ssa.Function:
-					ipos, ineg, _ := predsAt(nr, ret)
-					d.Rows = append(d.Rows, Row{Pos: append(append([]Pred{}, pos...), ipos...), Neg: append(append([]Pred{}, neg...), ineg...), Fn: unwrapBound(rv), Bodies: bodies, Inner: true, Site: ret})
-				case *ssa.Const:
-					d.Default = true
-				default:
-					d.Problems = append(d.Problems, "nested dispatcher returns a computed function at "+p.InstrPos(ret))
-				}
-			})
-		default:
-			d.Problems = append(d.Problems, "entry function of unknown origin at "+p.InstrPos(first))
+			seenEdge[e] = true
+		}
+		bodies := caseBodyBlocks(d.Fn, pred, blk)
+		p.selectionRows(d, d.Fn, r, e, first, nil, nil, bodies, false, 0)
+	}
+	tabular := false
+	for _, row := range d.Rows {
+		if row.TabG != nil {
+			tabular = true
 		}
 	}
-	sort.SliceStable(d.Rows, func(i, j int) bool { return d.Rows[i].Site.Pos() < d.Rows[j].Site.Pos() })
+	if !tabular { // rows of a table keep the table's order
+		sort.SliceStable(d.Rows, func(i, j int) bool { return d.Rows[i].Site.Pos() < d.Rows[j].Site.Pos() })
+	}
 	return d
 }
 
@@ -255,4 +262,24 @@ func isChanOf(t types.Type, pkgSuffix, name string) bool {
 	}
 	n, ok := ch.Elem().(*types.Named)
 	return ok && n.Obj().Name() == name && n.Obj().Pkg() != nil && strings.HasSuffix(n.Obj().Pkg().Path(), pkgSuffix)
+}
+
+func init() {
+	debugHooks = append(debugHooks, func(p *Prog) {
+		if os.Getenv("AMDEBUG") != "dispatch" {
+			return
+		}
+		d := FindDispatch(p)
+		if d == nil {
+			fmt.Println("DISPATCH none")
+			return
+		}
+		fmt.Println("DISPATCH in", d.Fn.Name(), "rows", len(d.Rows), "default", d.Default)
+		for _, r := range d.Rows {
+			fmt.Println("  ROW", r.Name(), "inner", r.Inner, "tab", r.TabK)
+		}
+		for _, pr := range d.Problems {
+			fmt.Println("  PROBLEM", pr)
+		}
+	})
 }
